@@ -146,6 +146,9 @@ func (oc *orderCheck) bodyOrderInsensitive(l *Loop, isIterVal func(ssa.Value) bo
 					_ = a
 					continue
 				}
+				if a, ok := root.(*ssa.Alloc); ok && x.Addr == ssa.Value(a) && cellAppendSorted(oc.w, l, a, x) {
+					continue // accumulator kept in a captured variable: only appended to, and sorted before any other use
+				}
 				return fmt.Sprintf("store to %s, which outlives the iteration, at %s", valueName(root), oc.w.Pos(x.Pos()))
 			case *ssa.MapUpdate:
 				if l.definedIn(x.Map) {
@@ -551,4 +554,98 @@ func ruleNoNondet(w *World, r *Report, pkg *ssa.Package) {
 	if n == 0 {
 		r.Ok(rule, "v2:no-clock-no-random", "-", fmt.Sprintf("no call into time, math/rand or crypto/rand in %d functions of the library", len(w.FuncsOf(pkg))))
 	}
+}
+
+// cellAppendSorted: the store appends to the slice held in cell (a variable
+// that lives in a heap cell because a closure captures it), and after the loop
+// the first thing done with the cell's value on every path is to sort it
+// (sort.Slice(v, less) with `less` reading the same cell is the usual shape).
+func cellAppendSorted(w *World, l *Loop, cell *ssa.Alloc, st *ssa.Store) bool {
+	if _, isSlice := cell.Type().(*types.Pointer).Elem().Underlying().(*types.Slice); !isSlice {
+		return false
+	}
+	// stored value: append(load(cell), ...)
+	ok := false
+	if c, isCall := st.Val.(*ssa.Call); isCall {
+		if b, isB := c.Call.Value.(*ssa.Builtin); isB && b.Name() == "append" {
+			if ld, isLd := c.Call.Args[0].(*ssa.UnOp); isLd && ld.Op == token.MUL && ld.X == ssa.Value(cell) {
+				ok = true
+			}
+		}
+	}
+	if !ok {
+		return false
+	}
+	fn := cell.Parent()
+	var sorter *ssa.Call
+	var loads []ssa.Instruction
+	var lessFns []*ssa.Function
+	for _, ref := range *cell.Referrers() {
+		switch x := ref.(type) {
+		case *ssa.UnOp:
+			if l.Blocks[x.Block()] {
+				continue
+			}
+			isSorterArg := false
+			for _, r2 := range *x.Referrers() {
+				var user ssa.Instruction = r2
+				if mi, isMI := r2.(*ssa.MakeInterface); isMI {
+					for _, r3 := range *mi.Referrers() {
+						user = r3
+					}
+				}
+				if c, isCall := user.(*ssa.Call); isCall && w.sorterArg(c, 0) != nil && strip(w.sorterArg(c, 0)) == ssa.Value(x) {
+					if sorter == nil || instrBefore(c, sorter) {
+						sorter = c
+					}
+					isSorterArg = true
+				}
+			}
+			if !isSorterArg {
+				loads = append(loads, x)
+			}
+		case *ssa.Store:
+			if !l.Blocks[x.Block()] && x != st {
+				// initialisation before the loop is fine; anything after must come after the sorter
+				loads = append(loads, x)
+			}
+		case *ssa.MakeClosure:
+			if f, isFn := x.Fn.(*ssa.Function); isFn {
+				lessFns = append(lessFns, f)
+			}
+			loads = append(loads, x)
+		case *ssa.DebugRef:
+		default:
+			return false
+		}
+	}
+	if sorter == nil {
+		return false
+	}
+	loopEntry := l.Header
+	for _, u := range loads {
+		if instrBefore(sorter, u) {
+			continue
+		}
+		// uses before the loop (initialisation) are fine
+		if u.Block().Dominates(loopEntry) && !l.Blocks[u.Block()] {
+			continue
+		}
+		// the closure handed to the sorter
+		if mc, isMC := u.(*ssa.MakeClosure); isMC {
+			handed := false
+			for _, a := range sorter.Call.Args {
+				if a == ssa.Value(mc) {
+					handed = true
+				}
+			}
+			if handed {
+				continue
+			}
+		}
+		return false
+	}
+	_ = fn
+	_ = lessFns
+	return true
 }
